@@ -498,6 +498,33 @@ static void rings_from_seed(uint64_t seed) {
     free(S.a);
 }
 
+/* a target: every second distance ring out to K = 17..23, i.e. nine to twelve ring-shaped components nested inside each other —
+ * the innermost hole has that many candidate containers (a fixed-size candidate list, or a quadratic shortcut, is wrong only
+ * at such depths) */
+static void target_from_seed(uint64_t seed) {
+    vf_case("target %016" PRIx64, seed);
+    vf_rng r;
+    vf_rng_seed(&r, seed);
+    int res = 3 + (int)vf_below(&r, 13);
+    H3Index c = vf_below(&r, 8) ? vf_rand_cell(&r, res) : vf_make_cell(res, REF_PENT_BC[vf_below(&r, 12)], (int[15]){0});
+    int K = 17 + 2 * (int)vf_below(&r, 4), phase = (int)vf_below(&r, 2);
+    int64_t sz;
+    maxGridDiskSize(K, &sz);
+    H3Index *d = calloc((size_t)sz, 8);
+    int *dist = calloc((size_t)sz, sizeof(int));
+    vec S = {0};
+    char what[200];
+    snprintf(what, sizeof what, "target %016" PRIx64 ": centre %016" PRIx64 ", every second ring (%s) out to %d", seed, c, phase ? "odd" : "even", K);
+    if (!gridDiskDistances(c, K, d, dist))
+        for (int64_t i = 0; i < sz; i++)
+            if (d[i] && (dist[i] & 1) == phase) push(&S, d[i]);
+    free(d);
+    free(dist);
+    vf_add("sets.targets_nine_or_more_rings", 1);
+    judge_set(&S, what, 0);
+    free(S.a);
+}
+
 /* a whole coarse resolution minus two or three patches: the set wraps the globe, its "holes" have no enclosing outer loop */
 static void globe_minus_patches(uint64_t seed) {
     vf_case("globe %016" PRIx64, seed);
@@ -621,6 +648,8 @@ static void run(void) {
     for (int i = 0; i < n; i++) set_from_seed(vf_u64(&r));
     int nr = VF_T(400, 6000);
     for (int i = 0; i < nr; i++) rings_from_seed(vf_u64(&r));
+    int nt = VF_T(6, 60);
+    for (int i = 0; i < nt; i++) target_from_seed(vf_u64(&r));
     int ng = VF_T(40, 600);
     for (int i = 0; i < ng; i++) globe_minus_patches(vf_u64(&r));
     vf_add("sets", n_sets);
@@ -633,6 +662,8 @@ static void replay(const char *spec) {
         set_from_seed(a);
     else if (sscanf(spec, "rings %" SCNx64, &a) == 1)
         rings_from_seed(a);
+    else if (sscanf(spec, "target %" SCNx64, &a) == 1)
+        target_from_seed(a);
     else if (sscanf(spec, "globe %" SCNx64, &a) == 1)
         globe_minus_patches(a);
     else if (!strncmp(spec, "witness-f10", 11))
